@@ -327,6 +327,8 @@ class Exec:
                 return SList(base.items[slice(lo, hi, st)])
             if isinstance(base, T) and base.op == 'tuple' and all(isinstance(x, (int, type(None))) for x in (lo, hi, st)):
                 return T('tuple', tuple(base.args[slice(lo, hi, st)]))
+            if isinstance(base, str) and all(isinstance(x, (int, type(None))) and not isinstance(x, bool) for x in (lo, hi, st)) and st != 0:
+                return base[slice(lo, hi, st)]
             return simplify(T('slice', (base, lo, hi) + ((st,) if st is not None else ())))
         idx = self.ev(e.slice, env)
         return self.getitem(base, idx)
@@ -349,6 +351,10 @@ class Exec:
                 return v
             raise Raise('KeyError', (idx,))
         if isinstance(idx, int) and not isinstance(idx, bool):
+            if isinstance(base, str):
+                if -len(base) <= idx < len(base):
+                    return base[idx]
+                raise Raise('IndexError', (idx,))
             if isinstance(base, SList) and not base.opaque_tail and -len(base.items) <= idx < len(base.items):
                 return base.items[idx]
             if isinstance(base, SList) and not base.opaque_tail and not base.tail and base.kind in ('list', 'gen'):
@@ -365,6 +371,30 @@ class Exec:
         return T('tuple', tuple(self.ev(x, env) for x in e.elts))
 
     def e_List(self, e, env):
+        if any(isinstance(x, ast.Starred) for x in e.elts):
+            # [a, *xs, b]: the concatenation [a] + xs + [b]
+            parts, cur = [], []
+            for x in e.elts:
+                if isinstance(x, ast.Starred):
+                    v = self.ev(x.value, env)
+                    items = self.iterate(v)
+                    if items is not None:
+                        cur.extend(items)
+                    else:
+                        if cur:
+                            parts.append(SList(cur))
+                            cur = []
+                        parts.append(v)
+                else:
+                    cur.append(self.ev(x, env))
+            if cur or not parts:
+                parts.append(SList(cur))
+            out = parts[0]
+            for nxt in parts[1:]:
+                out = simplify(T('bin', ('+', out, nxt)))
+            if isinstance(out, SList):
+                out.birth = tuple(u for u, _ in self.loops)
+            return out
         out = SList([self.ev(x, env) for x in e.elts])
         out.birth = tuple(u for u, _ in self.loops)
         return out
@@ -436,11 +466,13 @@ class Exec:
                 return v
         return v
 
-    _BIN = {ast.Add: '+', ast.Sub: '-', ast.Mult: '*', ast.Div: '/', ast.Mod: '%', ast.FloorDiv: '//', ast.Pow: '**'}
+    _BIN = {ast.Add: '+', ast.Sub: '-', ast.Mult: '*', ast.Div: '/', ast.Mod: '%', ast.FloorDiv: '//', ast.Pow: '**', ast.BitOr: '|', ast.BitAnd: '&', ast.BitXor: '^'}
 
     def e_BinOp(self, e, env):
         l, r = self.ev(e.left, env), self.ev(e.right, env)
         op = self._BIN.get(type(e.op), type(e.op).__name__)
+        if l is None or r is None:
+            self.events.append(('null-use', op, l, r))         # arithmetic on None: TypeError when executed
         if op in ('/', '//', '%') and not isinstance(l, str):
             self.events.append(('div', op, l, r))        # the one arithmetic step that can raise on a value (zero divisor)
         if isinstance(l, int) and isinstance(r, int) and not isinstance(l, bool) and not isinstance(r, bool) and op in '+-*':
@@ -451,6 +483,17 @@ class Exec:
             return SList(l.items + r.items)
         if op == '*' and isinstance(l, SList) and not l.opaque_tail and isinstance(r, int):
             return SList(l.items * r)
+        if op in ('-', '|', '&', '^') and isinstance(l, SList) and isinstance(r, SList) and l.kind == 'set' and r.kind == 'set' \
+                and not l.opaque_tail and not r.opaque_tail and all(is_key(x) for x in l.items + r.items):
+            if op == '-':
+                items = [x for x in l.items if x not in r.items]
+            elif op == '&':
+                items = [x for x in l.items if x in r.items]
+            elif op == '|':
+                items = l.items + [x for x in r.items if x not in l.items]
+            else:
+                items = [x for x in l.items if x not in r.items] + [x for x in r.items if x not in l.items]
+            return SList(items, kind='set')
         return simplify(T('bin', (op, l, r)))
 
     _CMP = {ast.Eq: '==', ast.NotEq: '!=', ast.Lt: '<', ast.LtE: '<=', ast.Gt: '>', ast.GtE: '>=', ast.Is: 'is', ast.IsNot: 'is not',
@@ -509,6 +552,8 @@ class Exec:
                 return op == '=='
             return T('cmp', (op, l, r))
         if op in ('<', '<=', '>', '>='):
+            if l is None or r is None:
+                self.events.append(('null-use', op, l, r))     # ordering against None: TypeError when executed
             if type(l) is int and type(r) is int:
                 return {'<': l < r, '<=': l <= r, '>': l > r, '>=': l >= r}[op]
             return T('cmp', (op, l, r))
@@ -584,6 +629,10 @@ class Exec:
         if len(e.generators) != 1:
             return T('comp', (ast.unparse(e),))
         env2 = dict(env)
+        views = []
+        while isinstance(seq, T) and seq.op == 'filter':
+            views.append(seq.args[0])
+            seq = seq.args[1]
         el = T('elem', (seq,))
         self.bind(gen.target, el, env2)
         self.events.append(('loop-begin', seq, out.id))
@@ -591,7 +640,13 @@ class Exec:
         self.loops.append((self._loop_uid, seq))
         conds = []
         ok = True
-        for c in gen.ifs:
+        for f in reversed(views):
+            cv = el if f is None else (self.apply_value(f, el) if self.is_applicable(f) else self.call_value(f, (el,), gen.iter, env2))
+            conds.append(cv)
+            if not self.truth(cv, gen.iter):
+                ok = False
+                break
+        for c in (gen.ifs if ok else ()):
             cv = self.ev(c, env2)
             conds.append(cv)
             if not self.truth(cv, c):
@@ -631,6 +686,36 @@ class Exec:
         # the attributes stored on the yielded object so far (what the consumer sees at this point)
         snap = {k.args[1]: x for k, x in self.heap.items() if isinstance(k, T) and k.op == 'attr' and k.args[0] == v}
         self.events.append(('yield', v, snap))
+        return None
+
+    def _emit_yield(self, v):
+        h = self.gen_handlers.get(self.frames[-1]) if self.frames else None
+        if h is not None:
+            h(v)
+            return
+        snap = {k.args[1]: x for k, x in self.heap.items() if isinstance(k, T) and k.op == 'attr' and k.args[0] == v}
+        self.events.append(('yield', v, snap))
+
+    def e_YieldFrom(self, e, env):
+        """`yield from xs`: every element of xs is yielded in turn."""
+        seq = self.ev(e.value, env)
+        if isinstance(seq, LazyGen):
+            while True:
+                ok, v = seq.pull()
+                if not ok:
+                    return None
+                self._emit_yield(v)
+        items = self.iterate(seq)
+        if items is not None:
+            for v in items:
+                self._emit_yield(v)
+            return None
+        if isinstance(seq, SList) and seq.origin is not None:
+            # a comprehension over a sequence that is not enumerated: its element stands for the elements (None: filtered out here)
+            if seq.origin[1] is not None:
+                self._emit_yield(seq.origin[1])
+            return None
+        self._emit_yield(T('elem', (seq,)))
         return None
 
     def e_NamedExpr(self, e, env):
@@ -690,6 +775,19 @@ class Exec:
                 return r
         if isinstance(recv, str) and attr in ('strip', 'lower', 'upper', 'rstrip', 'lstrip') and not args:
             return getattr(recv, attr)()
+        if isinstance(recv, str) and not kwargs and all(isinstance(a, (str, int)) and not isinstance(a, bool) for a in args) and attr in (
+                'startswith', 'endswith', 'strip', 'lstrip', 'rstrip', 'replace', 'find', 'rfind', 'count', 'isdigit', 'isalpha', 'isalnum',
+                'isidentifier', 'isupper', 'islower', 'title', 'capitalize', 'casefold', 'zfill', 'removeprefix', 'removesuffix', 'swapcase'):
+            try:
+                return getattr(recv, attr)(*args)
+            except (TypeError, ValueError):
+                pass
+        if isinstance(recv, str) and attr in ('partition', 'rpartition') and len(args) == 1 and isinstance(args[0], str) and args[0]:
+            return T('tuple', tuple(getattr(recv, attr)(args[0])))
+        if isinstance(recv, str) and attr == 'join' and len(args) == 1 and not kwargs:
+            items = self.iterate(args[0])
+            if items is not None and all(isinstance(x, str) for x in items):
+                return recv.join(items)
         if isinstance(recv, str) and attr == 'split' and not kwargs and all(isinstance(a, str) for a in args) and len(args) <= 1:
             return SList(recv.split(*args))
         if fname in ('collections.defaultdict',) :
@@ -786,6 +884,10 @@ class Exec:
             if isinstance(a, T) and a.op == 'tuple':
                 return len(a.args)
             return simplify(T('call', ('len', args, ())))
+        if name in ('list', 'set', 'dict', 'frozenset', 'tuple') and not args and not kwargs:
+            if name == 'tuple':
+                return T('tuple', ())
+            return SList(kind={'list': 'list', 'set': 'set', 'frozenset': 'set', 'dict': 'dict'}[name])
         if name in ('list', 'tuple', 'set', 'sorted', 'reversed', 'iter', 'frozenset') and len(args) == 1 and not kwargs:
             a = args[0]
             if name == 'sorted' and isinstance(a, SList) and not a.opaque_tail and (all(type(x) is int for x in a.items)
@@ -839,6 +941,18 @@ class Exec:
             d = SList(kind='dict')
             d.default = args[0].args[0]
             return d
+        if name == 'filter' and len(args) == 2 and not kwargs:
+            f, seq = args
+            items = self.iterate(seq)
+            if items is not None:
+                keep = []
+                for it in items:
+                    c = it if f is None else (self.apply_value(f, it) if self.is_applicable(f) else self.call_value(f, (it,), node, env))
+                    if self.truth(c, node):
+                        keep.append(it)
+                return SList(keep, kind='gen')
+            # over a sequence that is not enumerated: a lazy view, examined when it is iterated (one pass over the source)
+            return T('filter', (f, seq))
         if name in ('sum', 'min', 'max') and len(args) == 1 and not kwargs:
             items = self.iterate(args[0])
             if items is not None and all(type(x) is int for x in items) and (items or name == 'sum'):
@@ -880,7 +994,15 @@ class Exec:
                         out.append(self.apply_value(f, it))
                     else:
                         out.append(T('call', (gname(f), (it,), ())))
-                return SList(out, kind='gen')
+                mapped = SList(out, kind='gen')
+                mapped.source = args[1]
+                return mapped
+            if self.is_applicable(args[0]) or isinstance(args[0], (T, Sym)):
+                # over a sequence that is not enumerated: the generator expression (f(x) for x in seq)
+                comp = ast.parse('(__map_f(__map_x) for __map_x in __map_seq)', mode='eval').body
+                env2 = dict(env) if isinstance(env, dict) else {}
+                env2['__map_f'], env2['__map_seq'] = args[0], args[1]
+                return self._comp(comp, env2, comp.elt, 'gen')
         if name == 'next' and len(args) in (1, 2) and isinstance(args[0], LazyGen):
             ok, v = args[0].pull()
             if ok:
@@ -986,6 +1108,32 @@ class Exec:
             if attr == 'items':
                 return SList([T('tuple', (k, v)) for k, v in lst.items])
             return SList([k if attr == 'keys' else v for k, v in lst.items])
+        if attr == 'setdefault' and lst.kind == 'dict' and not lst.opaque_tail and len(args) in (1, 2) and is_key(args[0]) and not kwargs:
+            for k, v in lst.items:
+                if k == args[0]:
+                    return v
+            v = args[1] if len(args) == 2 else None
+            lst.items = lst.items + [(args[0], v)]
+            self.events.append(('mutate', lst.id, 'setitem', (args[0],), (('value', v),)))
+            return v
+        if attr == 'update' and lst.kind == 'dict' and not lst.opaque_tail and len(args) == 1 and not kwargs and isinstance(args[0], SList) \
+                and args[0].kind == 'dict' and not args[0].opaque_tail:
+            for k, v in args[0].items:
+                if any(a == k for a, _ in lst.items):
+                    lst.items = [(a, v if a == k else b) for a, b in lst.items]
+                else:
+                    lst.items = lst.items + [(k, v)]
+            self.events.append(('mutate', lst.id, 'update', tuple(args), ()))
+            return None
+        if attr == 'pop' and lst.kind == 'dict' and not lst.opaque_tail and len(args) in (1, 2) and is_key(args[0]) and not kwargs:
+            for k, v in lst.items:
+                if k == args[0]:
+                    lst.items = [(a, b) for a, b in lst.items if a != k]
+                    self.events.append(('mutate', lst.id, 'pop', tuple(args), ()))
+                    return v
+            if len(args) == 2:
+                return args[1]
+            raise Raise('KeyError', (args[0],))
         if attr == 'get' and lst.kind == 'dict' and not lst.opaque_tail and len(args) in (1, 2) \
                 and is_key(args[0]):
             for k, v in lst.items:
@@ -1033,6 +1181,18 @@ class Exec:
                 x = self.getattr(x, part)
             return x
         return self.getitem(x, a)
+
+    def call_value(self, f, args, node, env):
+        """Apply a callable *value* (not syntax) to arguments: through the hooks, else an uninterpreted call."""
+        fname = show(f)
+        if self.engine.on_call is not None:
+            r = self.engine.on_call(fname, f, None, tuple(args), (), self, node)
+            if r is not NotImplemented:
+                return r
+        if isinstance(f, T) and f.op in ('lambda', 'func'):
+            return self.apply_closure(f.args[1], tuple(args), ())
+        self.events.append(('call', fname, tuple(args), ()))
+        return T('call', (fname, tuple(args), ()))
 
     def apply_closure(self, clo, args, kwargs):
         env = dict(clo.env)
@@ -1184,7 +1344,12 @@ class Exec:
 
     def s_Delete(self, st, env):
         for t in st.targets:
-            self.events.append(('delete', self.lvalue(t, env)))
+            lv = self.lvalue(t, env)
+            self.events.append(('delete', lv))
+            if isinstance(t, ast.Subscript):
+                base = self.ev(t.value, env)
+                if isinstance(base, SList):
+                    self.events.append(('mutate', base.id, 'delitem', (lv,), ()))
 
     def lvalue(self, t, env):
         if isinstance(t, ast.Name):
@@ -1324,12 +1489,24 @@ class Exec:
                     broke = True
                     break
         else:
+            views = []
+            while isinstance(seq, T) and seq.op == 'filter':
+                views.append(seq.args[0])
+                seq = seq.args[1]
             self.events.append(('loop-begin', seq, None))
             self._loop_uid += 1
             self.loops.append((self._loop_uid, seq))
-            self.bind(st.target, T('elem', (seq,)), env)
+            el = T('elem', (seq,))
+            self.bind(st.target, el, env)
             try:
-                self.block(st.body, env)
+                passes = True
+                for f in reversed(views):
+                    cv = el if f is None else (self.apply_value(f, el) if self.is_applicable(f) else self.call_value(f, (el,), st.iter, env))
+                    if not self.truth(cv, st.iter):
+                        passes = False
+                        break
+                if passes:
+                    self.block(st.body, env)
             except Continue:
                 pass
             except Break:
